@@ -32,6 +32,7 @@ var probes = map[string]func() string{
 	"wire-concurrent-pushes":     probeConcurrentPushes,
 	"bridge-dead-context-post":   probeBridgeDeadContext,
 	"shared-options-own-limits":  probeSharedOptions,
+	"loop-finish-after-handlers": probeLoopFinishAfterHandlers,
 }
 
 func TestProbes(t *testing.T) {
@@ -371,6 +372,83 @@ func probeSharedOptions() string {
 	<-blocked
 	if err != nil {
 		return fmt.Sprintf("FAIL\tserver B (idle, Concurrency 1, built from the same *ServerOptions as the saturated server A) did not run its request: %v", err)
+	}
+	return "ok"
+}
+
+// oneConnAccepter hands out one connection and then blocks until its context ends.
+type oneConnAccepter struct{ ch chan channel.Channel }
+
+func (a oneConnAccepter) Accept(ctx context.Context) (channel.Channel, error) {
+	select {
+	case ch := <-a.ch:
+		return ch, nil
+	case <-ctx.Done():
+		return nil, &net.OpError{Op: "accept", Net: "mem", Err: net.ErrClosed}
+	}
+}
+
+type finishSvc struct {
+	asg      jrpc2.Assigner
+	finished chan jrpc2.ServerStatus
+}
+
+func (s finishSvc) Assigner() (jrpc2.Assigner, error)              { return s.asg, nil }
+func (s finishSvc) Finish(_ jrpc2.Assigner, st jrpc2.ServerStatus) { s.finished <- st }
+
+// probeLoopFinishAfterHandlers: Finish is called only after the connection's server has FULLY exited - every
+// handler returned, also those of a message that holds nothing but notifications and whose last member's
+// handler has long returned - and Loop returns after that.
+func probeLoopFinishAfterHandlers() string {
+	gate := make(chan struct{})
+	started := make(chan struct{}, 1)
+	svc := finishSvc{finished: make(chan jrpc2.ServerStatus, 1), asg: handler.Map{
+		"slow": func(context.Context, *jrpc2.Request) (any, error) { started <- struct{}{}; <-gate; return nil, nil },
+		"fast": func(context.Context, *jrpc2.Request) (any, error) { return nil, nil },
+	}}
+	cch, sch := channel.Direct()
+	acc := oneConnAccepter{ch: make(chan channel.Channel, 1)}
+	acc.ch <- sch
+	ctx, cancel := context.WithCancel(context.Background())
+	defer cancel()
+	ret := make(chan error, 1)
+	go func() {
+		ret <- server.Loop(ctx, acc, func() server.Service { return svc }, &server.LoopOptions{ServerOptions: &jrpc2.ServerOptions{Concurrency: 4}})
+	}()
+	if err := cch.Send([]byte(`[{"jsonrpc":"2.0","method":"slow"},{"jsonrpc":"2.0","method":"fast"}]`)); err != nil {
+		close(gate)
+		return "FAIL\tsend: " + err.Error()
+	}
+	select {
+	case <-started:
+	case <-time.After(10 * time.Second):
+		close(gate)
+		return "FAIL\tthe slow notification never started"
+	}
+	cch.Close() // the peer hangs up while the slow handler is still running
+	select {
+	case st := <-svc.finished:
+		close(gate)
+		return fmt.Sprintf("FAIL\tFinish was called (status %+v) while a handler of that server was still running", st)
+	case err := <-ret:
+		close(gate)
+		return fmt.Sprintf("FAIL\tLoop returned (%v) while a handler of a server it started was still running", err)
+	case <-time.After(300 * time.Millisecond):
+	}
+	close(gate)
+	select {
+	case <-svc.finished:
+	case <-time.After(10 * time.Second):
+		return "FAIL\tFinish was not called within 10s of the last handler's return"
+	}
+	cancel()
+	select {
+	case err := <-ret:
+		if err != nil {
+			return fmt.Sprintf("FAIL\tLoop returned %v after its context ended, want nil", err)
+		}
+	case <-time.After(10 * time.Second):
+		return "FAIL\tLoop did not return within 10s of the end of its context"
 	}
 	return "ok"
 }
